@@ -248,6 +248,46 @@ int main(int argc, char** argv) {
       free(exblk);
       if (it) ser_case(it, "dec");
     }
+  } else if (!strcmp(mode, "edge")) {
+    /* thresholds the implementation could key on: nesting at the decoder's limit, payloads and chunks around 4 KiB / 64 KiB */
+    static unsigned char big[3 * CBOR_MAX_STACK_SIZE + 64 > (1 << 17) + 64 ? 3 * CBOR_MAX_STACK_SIZE + 64 : (1 << 17) + 64];
+    static const unsigned char openers[][3] = {{1, 0x81}, {1, 0x9f}, {1, 0xc1}, {2, 0xa1, 0x00}, {2, 0xbf, 0x00}, {1, 0xa1}, {2, 0xd8, 0x20}};
+    long which = atol(argv[a + 1]); /* 0: all, 1: deep nests only, 2: big payloads only, 3: big payloads up to 4 KiB */
+    for (int d = CBOR_MAX_STACK_SIZE - 1; d <= CBOR_MAX_STACK_SIZE && which != 2 && which != 3; d++)
+      for (int oi = 0; oi < 7; oi++)
+        for (int inner = 0; inner < 2; inner++) {
+          if (d < 1) continue;
+          size_t n = 0;
+          for (int k = 0; k < d; k++) { memcpy(big + n, openers[oi] + 1, openers[oi][0]); n += openers[oi][0]; }
+          if (inner == 0) big[n++] = 0x00; else { memcpy(big + n, "\x5f\x41\x61\x40\xff", 5); n += 5; }
+          if (oi == 5) for (int k = 0; k < d; k++) big[n++] = 0x00;       /* a1 with the container in key position: values follow */
+          if (oi == 1) for (int k = 0; k < d; k++) big[n++] = 0xff;
+          if (oi == 4) for (int k = 0; k < d; k++) big[n++] = 0xff;
+          set_hex(big, n < 64 ? n : 64);
+          case_live0 = va.live;
+          struct cbor_load_result r;
+          cbor_item_t* it = cbor_load(big, n, &r);
+          if (it) ser_case(it, "deep");
+        }
+    static const size_t sizes[] = {4095, 4096, 4097, 65535, 65536, 65537};
+    for (int si = 0; si < (which == 3 ? 3 : 6) && which != 1; si++)
+      for (int kind = 0; kind < 4; kind++) {
+        size_t z = sizes[si];
+        for (size_t i = 0; i < z; i++) big[i] = (unsigned char)(kind & 1 ? 'a' + i % 26 : i * 7 + 1);
+        case_live0 = va.live;
+        cbor_item_t* it = NULL;
+        if (kind == 0) it = cbor_build_bytestring(big, z);
+        else if (kind == 1) it = cbor_build_stringn((const char*)big, z);
+        else {
+          it = kind == 2 ? cbor_new_indefinite_bytestring() : cbor_new_indefinite_string();
+          for (int c = 0; c < 3 && it; c++) {
+            size_t cz = c == 1 ? 1 : z;
+            cbor_item_t* ch = kind == 2 ? cbor_build_bytestring(big, cz) : cbor_build_stringn((const char*)big, cz);
+            if (ch) { (void)(kind == 2 ? cbor_bytestring_add_chunk(it, ch) : cbor_string_add_chunk(it, ch)); cbor_decref(&ch); }
+          }
+        }
+        if (it) ser_case(it, "big");
+      }
   } else if (!strcmp(mode, "hex")) {
     FILE* f = strcmp(argv[a + 1], "-") ? fopen(argv[a + 1], "r") : stdin;
     if (!f) return 2;
